@@ -148,6 +148,16 @@ func runCheck(opts checkOpts) int {
 	_ = os.MkdirAll(work, 0o755)
 	t1 := time.Now()
 	solveAllTier(sel, opts, work)
+	// proof alternatives: a function whose base proof fails is tried under the alternatives
+	// its contract carries (variants.go); accepted only when every obligation is discharged
+	if acc := p.tryVariants(sel, opts, work); len(acc) > 0 {
+		sel = replaceByVariants(sel, acc, func(o *Obligation) bool {
+			return hasTag(o, prop) || o.Kind == "cover" || o.Kind == "cover-return" || o.Kind == "cover-goal"
+		})
+	}
+	for _, l := range p.variantLog {
+		fmt.Println("bipverif: alternatives:", l)
+	}
 	solveS := time.Since(t1).Seconds()
 
 	known := loadKnown()
